@@ -5,6 +5,8 @@ Oracle: match(R1(spec), R2(to_proto)) and match(R1(spec), R3(spice text)); see h
 
 from __future__ import annotations
 
+import copy
+
 from .. import oracle, refsem, spec
 from ..runner import jhash
 
@@ -94,8 +96,14 @@ def run(ctx, rec):
     n_random = 1200 if ctx.quick else 2500
     spice = True
     if ctx.nshards == 1 or ctx.shard == 0:
-        for label, d in spec.structural_designs():
+        for k, (label, d) in enumerate(spec.structural_designs()):
             one(rec, label, d, spice)
+            if k % 2 == 0:
+                # the same design, every port first tied to something else and then re-connected
+                d2 = copy.deepcopy(d)
+                d2["rewire"] = "pref" if k % 4 == 0 else "signal"
+                rec.count("driver.rewired")
+                one(rec, label + " (re-connected)", d2, False)
     kd = list(spec.kernel_designs(depth, tier))
     if ctx.nshards > 1:
         kd = kd[ctx.shard:: ctx.nshards]
